@@ -476,6 +476,38 @@ class Engine:
         self._modset[key] = ms
         return ms
 
+    def bounded_counter(self, path):
+        """local loop counters compared with a small constant in a loop condition are tracked exactly"""
+        if '::' not in path:
+            return False
+        fid, d = path.split('::', 1)
+        if d[:2] != 'L:' or '.' in d or '[' in d:
+            return False
+        bc = getattr(self, '_bc', None)
+        if bc is None:
+            bc = self._bc = {}
+        if fid not in bc:
+            bc[fid] = None
+        return d in (self._bc_sets.get(fid) or ())
+
+    def note_function(self, fn):
+        sets = getattr(self, '_bc_sets', None)
+        if sets is None:
+            sets = self._bc_sets = {}
+        fid = self.frame_id(fn)
+        if fid in sets:
+            return
+        out = set()
+        for b in fn.blocks.values():
+            if not (b.term and b.term.get('k') in ('for', 'while', 'do') and b.cond is not None):
+                continue
+            for y in b.cond.walk():
+                if y.k == 'bin' and y.op in ('<', '<=', '!=', '>', '>='):
+                    for u, v in ((y.args[0], y.args[1]), (y.args[1], y.args[0])):
+                        if u is not None and v is not None and u.var and u.var[:2] == 'L:' and v.const is not None and 0 <= v.const <= 64:
+                            out.add(u.var)
+        sets[fid] = out
+
     # ------------------------------------------------------------------ evaluation
     def eval_elem(self, E, x):
         """evaluates element x in env E (mutating E.store/E.temps).
@@ -548,7 +580,7 @@ class Engine:
                 old = E.store.get(p, TOP) if p and self.trackable(p) else TOP
                 new = TOP
                 if p and self.trackable(p):
-                    if old is not TOP and self.hooks.precise_arith(p):
+                    if old is not TOP and (self.hooks.precise_arith(p) or self.bounded_counter(p)):
                         d = 1 if '++' in op else -1
                         new = frozenset(wrap(e + d, x.type) if isinstance(e, int) else (lin_add(e, d) if is_lin(e) else (ptr_add(e, d) or e)) for e in old)
                     E.set(p, new)
@@ -588,7 +620,7 @@ class Engine:
             rv = self.value_of(E, rhs)
             if x.op != '=':
                 op = x.op[:-1]
-                if p and self.trackable(p) and self.hooks.precise_arith(p):
+                if p and self.trackable(p) and (self.hooks.precise_arith(p) or self.bounded_counter(p)):
                     rv = self.binset(op, E.store.get(p, TOP), rv, x.type)
                 else:
                     rv = TOP
@@ -793,6 +825,7 @@ class Engine:
     def run_function(self, fn, store, trace=None, top=False):
         """-> list of (kind, store, retval, trace); kind 'ret' only (noreturn paths end inside)"""
         self.escaped(fn)
+        self.note_function(fn)
         key = (fn.unit, fn.name, self.freeze(store))
         if key in self.summaries and not top:
             cached = self.summaries[key]
